@@ -270,6 +270,9 @@ func (s *Sched) allDoneLocked() bool {
 // Run is the controller loop. It returns when every explicit thread has finished
 // and no thread is parked, or on deadlock (s.Deadlock) or divergence.
 func (s *Sched) Run() {
+	// let goroutines started during set-up (watchers, monitors) run, unscheduled, until
+	// they block, so that which of them become threads does not depend on timing
+	synctest.Wait()
 	atomic.StoreInt32(&s.phase, 1)
 	defer atomic.StoreInt32(&s.phase, 2)
 	idle := 0
